@@ -22,6 +22,7 @@ def run(rep):
     rep.guard(e5, rep, w)
     rep.guard(e6, rep, w)
     rep.guard(e7, rep, w)
+    rep.guard(e8, rep, w)
     import c03
     rep.guard(c03.t3, rep, w)     # precedence levels: the table the binary-operator parser climbs
     rep.guard(c04.b3, rep, w)
@@ -283,3 +284,30 @@ def e7(rep, w):
     bad = not (undo or checked_first)
     r.check(not bad, 'set_global_impl: the NameError path undoes (or never makes) the insertion', 'set_global_impl can raise the NameError with the name already inserted and not removed: after the '
             'error is caught (or on the next REPL line) the undeclared variable exists', f.loc())
+
+
+def e8(rep, w, prop='C05'):
+    """`==` on two numbers is IEEE equality of the two doubles, nothing else: one comparison of the two payloads in the Number arm of
+    PartialEq for Value (NaN differs from everything including itself, 0 equals -0) and no other operation on a double in that function.
+    The same function is the language's `==`, the key comparison of HashMap and the element comparison of Vec / Tuple equality, so a
+    special case added for one of them changes all."""
+    r = rep.rule('E8', 'numbers compare with the IEEE `==` of their payloads and nothing else in PartialEq for Value', floor=1)
+    f = w.require_fn('yarel::<value::Value as std::cmp::PartialEq>::eq', prop)
+    c = f.crate
+    on_f64 = []
+    for bi, t in f.calls():
+        tys = [c.tstr(a).lstrip('&') for a in (t['f'].get('ra') or t['f'].get('a') or [])]
+        argt = []
+        for a in t['args']:
+            pl = op_place(a)
+            if pl is not None:
+                argt.append(c.tstr(c.peel_refs(pl.get('t', f.local_ty(pl['l'])))))
+        if 'f64' in tys or 'f64' in argt:
+            on_f64.append((callee_name(t) or '?'))
+    bins = [s_['r']['op'] for b in f.blocks for s_ in b['s'] if s_.get('r', {}).get('rv') == 'bin' and
+            any(op_place(o) is not None and c.tstr(c.peel_refs(op_place(o).get('t', f.local_ty(op_place(o)['l'])))) == 'f64' for o in (s_['r']['a'], s_['r']['b']))]
+    eqs = [n for n in on_f64 if n.endswith('::eq')] + [b for b in bins if b == 'Eq']
+    other = [n for n in on_f64 if not n.endswith('::eq')] + [b for b in bins if b != 'Eq']
+    r.check(len(eqs) == 1 and not other, 'Value::eq: one `==` on the two doubles, no other operation on a double',
+            'PartialEq for Value compares numbers with %s: `nan == nan`, `x != x` as a NaN test, Vec / Tuple equality and HashMap key identity all go through this function'
+            % (sorted(set(other)) or ['%d comparisons' % len(eqs)]), f.loc())
